@@ -643,3 +643,225 @@ def fsync_flag_released(crate):
 
     _check_paths(ex, res, outs, per_path)
     return P.finish(ex, res, ["synced, flag released", "sync failed, flag released", "nothing to sync (below the limit), flag released", "another sync in flight"])
+
+
+def read_blobs_max_id(crate, N=2):
+    """C03/C07/C15: Storage::read_blobs: the reported max_blob_id is the maximum over the ids of ALL blob files seen —
+    loaded ones and those that failed to load (whether ignored, quarantined or fatal) — so that a new blob never gets the
+    id of a file still (or ever) present; `blobs` holds exactly the loaded ones, the corrupted count the quarantined ones."""
+    res = P.ObResult("read_blobs_max_id[N<=%d]" % N)
+    fn = crate.method("Storage", "read_blobs")
+    res.functions = ["Storage::read_blobs (async body)", "Blob::id", "FileName::id"]
+    res.bounds = "<= %d blob files, each loads or fails arbitrarily; ignore_corrupted / should_save / save outcome arbitrary" % N
+
+    PIPE = "file-pipeline"
+
+    def h_pipe_start(ex_, st_, frame, t, nf, args, dty):
+        o = Obj(dty); o.tag = (PIPE,)
+        return [(o, None)]
+
+    def h_pipe_pass(ex_, st_, frame, t, nf, args, dty):
+        a = args[0]
+        if isinstance(a, Obj) and a.tag == (PIPE,):
+            o = Obj(dty); o.tag = (PIPE,)
+            return [(o, None)]
+        raise Unsupported("iterator adapter on a non-pipeline value")
+
+    def h_pipe_len(ex_, st_, frame, t, nf, args, dty):
+        return [(ex_.fresh("usize", st_, "n"), None)]
+
+    nfiles = z3.BitVec("blob_files", 64)
+
+    def h_pipe_collect(ex_, st_, frame, t, nf, args, dty):
+        a = args[0]
+        if not (isinstance(a, Obj) and a.tag == (PIPE,)):
+            raise Unsupported("collect of a non-pipeline value")
+        slots = []
+        for k in range(N):
+            slots.append((z3.ULT(BV64(k), nfiles), FutureV("read_blobs::open_blob_file", [Sym(BV64(k), "usize")], None, "havoc")))
+        it = IT.IterV(slots, "?", True, nfiles)
+        s = Obj(dty); s.tag = ("stream", it)
+        return [(s, None)]
+    extra = [(r"^<std::slice::Iter as (\S*::)?Iterator>::map$", h_pipe_start),
+             (r"^<std::iter::(Map|Filter|FilterMap) as (\S*::)?Iterator>::(filter|filter_map|map)$", h_pipe_pass),
+             (r"^<std::iter::Map as ExactSizeIterator>::len$", h_pipe_len),
+             (r"^<std::iter::Map as (\S*::)?Iterator>::collect$", h_pipe_collect)]
+    ex = P.mk_executor(crate, cap=N + 1, loop_bound=N + 3, inline=[r"^Blob::id$", r"^FileName::id$"], extra_summaries=extra,
+                       havoc=[r"^format$", r"^must_use$", r"^std::path::", r"^<std::path::PathBuf as .*>::", r"^anyhow::"])
+    items = []
+
+    def hook(ex_, st_, name, fargs, out_ty, dty):
+        if name != "read_blobs::open_blob_file":
+            return None
+        k = len([e for e in st_.events if e[0] == "await" and e[1] == name])
+        r = ex_.fresh(out_ty, st_, "file%d" % k)
+        st_.events.append(("await", name, fargs, r))
+        return [(S.poll_ready(dty, r), None)]
+    ex.await_hook = hook
+
+    def call_hook(ex_, st_, cname, args, dty):
+        if cname == "FileName::from_path":
+            r = ex_.fresh(dty, st_, "fname")
+            st_.events.append(("call", cname, args, r))
+            return [(r, None)]
+        return None
+    ex.call_hook = call_hook
+    st = State()
+    st.pc.append(z3.ULE(nfiles, BV64(N)))
+    files = VecV("tokio::fs::DirEntry", N + 1, Sym(z3.BitVec("dir_entries", 64), "usize"))
+    fc = st.new_cell(files)
+    outs = P.drive_async(ex, st, fn, [Ref(fc, (), False, "&[DirEntry]"), Obj("io::unix::sync::IoDriver"), Obj("std::sync::Arc<tokio::sync::Semaphore>"),
+                                      Ref(st.new_cell(Obj("storage::config::Config")), (), False, "&Config")])
+    res.paths = len(outs)
+    name_i, id_i = crate.field_index("Blob", "name"), crate.field_index("FileName", "id")
+
+    def per_path(o, isok, payload):
+        evs = P.events_of(o)
+        opened = [e for e in evs if e[0] == "await" and e[1] == "read_blobs::open_blob_file"]
+        parsed = [e for e in evs if e[0] == "call" and e[1] == "FileName::from_path"]
+        ids = []          # (valid term, id term) for every file whose id is known
+        pi = 0
+        n_loaded = BV64(0)
+        for e in opened:
+            r = e[3]
+            okk = ex.get_discr(o, r).t == BV64(0)
+            blob = ex._get_field(o, r, "Ok", 0, "blob::core::Blob<K>")
+            nm = ex._get_field(o, blob, None, name_i, "std::sync::Arc<blob::file_name::FileName>")
+            # Blob.name is Arc<FileName>: payload behind pseudo-field 7001 (possibly a shared cell)
+            pay = nm.fields.get((None, 7001))
+            if isinstance(pay, Ref):
+                pay = o.mem[pay.cell]
+            if pay is None:
+                pay = ex._get_field(o, nm, None, 7001, "blob::file_name::FileName")
+            bid = ex._get_field(o, pay, None, id_i, "usize").t
+            ids.append((okk, bid))
+            n_loaded = n_loaded + z3.If(okk, BV64(1), BV64(0))
+        for e in parsed:
+            r = e[3]
+            pk = ex.get_discr(o, r).t == BV64(0)
+            fnm = ex._get_field(o, r, "Ok", 0, "blob::file_name::FileName")
+            ids.append((pk, ex._get_field(o, fnm, None, id_i, "usize").t))
+        if not P.prove(ex, res, o, z3.Implies(isok, BV64(len(opened)) == nfiles), "Ok => every blob file was opened"):
+            return False
+        n_failed = BV64(len(opened)) - n_loaded
+        if not P.prove(ex, res, o, z3.Implies(isok, BV64(len(parsed)) == n_failed),
+                       "the id of every blob file that failed to load is taken from its name (ignored and quarantined alike)"):
+            return False
+        out = payload.fields.get(("Ok", 0))
+        if out is None:
+            P.cover(ex, res, o, z3.Not(isok), "fatal error for a blob file")
+            return True
+        mx = ex._get_field(o, out, None, crate.field_index("ReadBlobsResult", "max_blob_id"), "Option<usize>")
+        mxs = ex.get_discr(o, mx).t == BV64(1)
+        mxv = ex._get_field(o, mx, "Some", 0, "usize").t
+        cl = []
+        for v, i in ids:
+            cl.append(z3.Implies(v, z3.And(mxs, z3.UGE(mxv, i))))
+        cl.append(z3.Implies(mxs, z3.Or([z3.And(v, mxv == i) for v, i in ids] or [z3.BoolVal(False)])))
+        if not P.prove(ex, res, o, z3.Implies(isok, z3.And(cl)), "max_blob_id = max id over loaded AND failed blob files"):
+            return False
+        blobs = ex._get_field(o, out, None, crate.field_index("ReadBlobsResult", "blobs"), "Vec<Blob<K>>")
+        if isinstance(blobs, VecV):
+            if not P.prove(ex, res, o, z3.Implies(isok, blobs.len.t == n_loaded), "blobs = the loaded files"):
+                return False
+        saves = [e for e in evs if "save_corrupted_blob" in e[1] and e[0] == "await"]
+        cor = ex._get_field(o, out, None, crate.field_index("ReadBlobsResult", "new_corrupted_blob_count"), "usize")
+        if not P.prove(ex, res, o, z3.Implies(isok, cor.t == BV64(len(saves))), "corrupted count = quarantined files"):
+            return False
+        if parsed:
+            ign = [e for e in evs if "ignore_corrupted" in e[1]]
+            if ign and isinstance(ign[0][3], Sym):
+                P.cover(ex, res, o, z3.And(isok, ign[0][3].t), "failed blob ignored in place: its id still counts")
+            P.cover(ex, res, o, z3.And(isok, z3.BoolVal(len(saves) > 0)), "failed blob quarantined: its id still counts")
+        P.cover(ex, res, o, z3.And(isok, nfiles == BV64(N), n_loaded == BV64(N)), "all files loaded")
+        return True
+
+    _check_paths(ex, res, outs, per_path)
+    return P.finish(ex, res, ["failed blob ignored in place: its id still counts", "failed blob quarantined: its id still counts", "all files loaded",
+                              "fatal error for a blob file"])
+
+
+def init_ids_above_all(crate):
+    """C03/C07: Storage::init_from_existing: after a successful init, next_blob_id is above every blob id seen in the
+    work dir (loaded or failed, as reported by read_blobs), above every id in the corrupted-blobs directory, and above the
+    ids of the blobs kept (Safe::max_id)."""
+    res = P.ObResult("init_ids_above_all")
+    fn = crate.method("Storage", "init_from_existing")
+    res.functions = ["Storage::init_from_existing (async body)"]
+    res.bounds = "<= 2 loaded blobs, arbitrary ids (< 2^40), every outcome of the callees"
+    ex = P.mk_executor(crate, cap=3, loop_bound=6, inline=[r"^Inner::(get_dump_sem|config)$"],
+                       havoc=[r"^core::slice::(<impl[^>]*>::)?sort_by_key$", r"^std::slice::sort_by_key$", r"^Config::"])
+    st = State()
+    storage = Obj("storage::core::Storage<K>")
+    inner = Obj("storage::core::Inner<K>")
+    nb = Obj("std::sync::atomic::AtomicUsize")
+    nb0 = z3.BitVec("next_blob_id_before", 64)
+    nb.fields[(None, 7002)] = Sym(nb0, "usize")
+    inner.fields[(None, crate.field_index("Inner", "next_blob_id"))] = nb
+    ic = st.new_cell(inner)
+    arc = Obj("std::sync::Arc<storage::core::Inner<K>>")
+    arc.fields[(None, 7001)] = Ref(ic, (), True, "&storage::core::Inner<K>")
+    storage.fields[(None, crate.field_index("Storage", "inner"))] = arc
+    sc = st.new_cell(storage)
+    seen = {}
+
+    def hook(ex_, st_, name, fargs, out_ty, dty):
+        if "count_old_corrupted_blobs" in name or "read_blobs" in name or name.endswith("Safe::max_id"):
+            r = ex_.fresh(out_ty, st_, "ids")
+            lim = BV64(1 << 40)
+            if "count_old_corrupted_blobs" in name:
+                st_.pc.append(z3.ULT(ex_._get_field(st_, r, None, 0, "usize").t, lim))
+                st_.pc.append(z3.ULT(ex_._get_field(st_, ex_._get_field(st_, r, None, 1, "Option<usize>"), "Some", 0, "usize").t, lim))
+            elif "read_blobs" in name:
+                rb = ex_._get_field(st_, r, "Ok", 0, "ReadBlobsResult<K>")
+                st_.pc.append(z3.ULT(ex_._get_field(st_, rb, None, crate.field_index("ReadBlobsResult", "new_corrupted_blob_count"), "usize").t, lim))
+                mb = ex_._get_field(st_, rb, None, crate.field_index("ReadBlobsResult", "max_blob_id"), "Option<usize>")
+                st_.pc.append(z3.ULT(ex_._get_field(st_, mb, "Some", 0, "usize").t, lim))
+            else:
+                st_.pc.append(z3.ULT(ex_._get_field(st_, r, "Some", 0, "usize").t, lim))
+            st_.events.append(("await", name, fargs, r))
+            return [(S.poll_ready(dty, r), None)]
+        return None
+    ex.await_hook = hook
+    outs = P.drive_async(ex, st, fn, [Ref(sc, (), True, "&mut storage::core::Storage<K>"), VecV("tokio::fs::DirEntry", 3, Sym(z3.BitVec("n_entries", 64), "usize")),
+                                      Sym(z3.Bool("with_active"), "bool")])
+    res.paths = len(outs)
+
+    def opt(o, v):
+        return ex.get_discr(o, v).t == BV64(1), ex._get_field(o, v, "Some", 0, "usize").t
+
+    def per_path(o, isok, payload):
+        evs = P.events_of(o)
+        final = o.mem[ic].fields[(None, crate.field_index("Inner", "next_blob_id"))].fields[(None, 7002)].t
+        cl = []
+        small = []
+        for e in evs:
+            if e[0] != "await":
+                continue
+            if "count_old_corrupted_blobs" in e[1]:
+                tup = e[3]
+                s_, v_ = opt(o, ex._get_field(o, tup, None, 1, "Option<usize>"))
+                cl.append(z3.Implies(s_, z3.UGT(final, v_)))
+                small.append(z3.Implies(s_, z3.ULT(v_, BV64(1 << 40))))
+            if "read_blobs" in e[1]:
+                r = e[3]
+                rb = ex._get_field(o, r, "Ok", 0, "ReadBlobsResult<K>")
+                s_, v_ = opt(o, ex._get_field(o, rb, None, crate.field_index("ReadBlobsResult", "max_blob_id"), "Option<usize>"))
+                cl.append(z3.Implies(s_, z3.UGT(final, v_)))
+                small.append(z3.Implies(s_, z3.ULT(v_, BV64(1 << 40))))
+            if e[1].endswith("Safe::max_id"):
+                s_, v_ = opt(o, e[3])
+                cl.append(z3.Implies(s_, z3.UGT(final, v_)))
+                small.append(z3.Implies(s_, z3.ULT(v_, BV64(1 << 40))))
+        if not cl:
+            if not P.prove(ex, res, o, z3.Not(isok), "Ok => the directory was scanned"):
+                return False
+            return True
+        if not P.prove(ex, res, o, z3.Implies(z3.And(isok, *small), z3.And(cl)), "next_blob_id is above every id seen (work dir, corrupted dir, kept blobs)"):
+            return False
+        P.cover(ex, res, o, z3.And(isok, z3.BoolVal(len(cl) >= 3)), "all three id sources present")
+        P.cover(ex, res, o, z3.Not(isok), "init failed")
+        return True
+
+    _check_paths(ex, res, outs, per_path)
+    return P.finish(ex, res, ["all three id sources present", "init failed"])
